@@ -231,6 +231,33 @@ def run_binding(acc, n):
                         if not close(g1, Ub @ e, 1e-12) or not close(g2, np.abs(Ub @ e) ** 2, 1e-12):
                             acc.viol("indexing:accepted-array-position-k-is-not-basis-state-k", dict(case, kind=kind, k=k, basis=bs, path="per-outcome"), observed=g1, expected=Ub @ e)
                             break
+            if n <= 2:
+                # entry (j, k) of an ACCEPTED density-matrix array is <j| rho |k> (row index = ket): the Hermitian
+                # units E_jk + E_kj and i(E_jk - E_kj) distinguish an array from its transpose in any basis with a Y
+                import itertools as _it
+                mst_ = build_state("mixed", [n, 1, 1])
+                Dn = 2 ** n
+                for bs in ("".join(x) for x in _it.product("XYZ", repeat=n)):
+                    Ub = R.basis_unitary(bs)
+                    stop_ = False
+                    for j in range(Dn):
+                        for k in range(j + 1, Dn):
+                            for nm, Hm in (("sym", np.eye(Dn, dtype=complex)[[j]].T @ np.eye(Dn, dtype=complex)[[k]] + np.eye(Dn, dtype=complex)[[k]].T @ np.eye(Dn, dtype=complex)[[j]]),
+                                           ("asym", 1j * (np.eye(Dn, dtype=complex)[[j]].T @ np.eye(Dn, dtype=complex)[[k]] - np.eye(Dn, dtype=complex)[[k]].T @ np.eye(Dn, dtype=complex)[[j]]))):
+                                wantH = Ub @ Hm @ Ub.conj().T
+                                g2 = call(L.unitaries.rotate_rho_probs, mst_, bs, space, rho=c2t(Hm)).numpy()
+                                g3 = L.cplx.numpy(call(L.unitaries.rotate_rho, mst_, bs, space, rho=c2t(Hm)))
+                                acc.ev(1, nontrivial=True)
+                                if not close(g2, np.real(np.diag(wantH)), 1e-12, at=1e-12) or not close(g3, wantH, 1e-12, at=1e-12):
+                                    acc.viol("indexing:accepted-matrix-position-(j,k)-is-not-<j|rho|k>", dict(case, kind=kind, j=j, k=k, basis=bs, unit=nm), observed=g2, expected=np.real(np.diag(wantH)))
+                                    stop_ = True
+                                    break
+                            if stop_:
+                                break
+                        if stop_:
+                            break
+                    if stop_:
+                        break
             for k in range(2 ** n):
                 e = np.eye(2 ** n, dtype=complex)[k]
                 got = L.cplx.numpy(call(L.unitaries.rotate_psi, st, basis, space, psi=c2t(e)))
